@@ -11,7 +11,7 @@ class ShimError(Exception):
     """harness-level error (unknown op, malformed argument): a bug in the checker, never a verdict"""
 
 class Result:
-    __slots__ = ("t", "ill", "err", "m", "live", "cmd")
+    __slots__ = ("t", "ill", "err", "m", "live", "cmd", "mod")
     def __init__(self, toks, ill, err, m, live, cmd):
         self.t = toks; self.ill = ill; self.err = err; self.m = m; self.live = live; self.cmd = cmd
     def i(self, k): return int(self.t[k])
@@ -113,7 +113,9 @@ class Shim:
         body, _, tail = out.partition(" | ")
         toks = body.split(" ")[1:]
         kv = dict(x.split("=") for x in tail.split())
-        return Result(toks, int(kv["ill"]), int(kv["err"]), int(kv["m"]), int(kv["live"]), line)
+        r = Result(toks, int(kv["ill"]), int(kv["err"]), int(kv["m"]), int(kv["live"]), line)
+        r.mod = tuple(int(x) for x in kv["mod"].split(",")) if "mod" in kv else ()
+        return r
     def call(self, op, *args, ctx=None):
         line = ("@%d " % ctx if ctx else "") + op + "".join(" " + enc(a) for a in args)
         return self.raw(line)
